@@ -164,8 +164,30 @@ def run_c04(tier):
 
 
 def replay(prop, path):
-    print("replay of C04 re-runs the whole comparison (exhaustive, ~20 s)")
-    return run_c04("quick")
+    if prop == "C04":
+        print("replay of C04 re-runs the whole comparison (exhaustive, ~20 s)")
+        return run_c04("quick")
+    from ..core import from_json
+
+    rec = json.load(open(path))
+    case = from_json(rec["case"])
+    defn = case.get("definition")
+    if defn is None:
+        print("this C16 case is not tied to one definition; re-running the quick sweep")
+        return run_c16("quick")
+    res = _batch((0, [(rec["class"], defn)], 1, True))
+    if "crash" in res:
+        raise HarnessError(res["crash"])
+    hits = [v for v in res["violations"] if v["class"] == rec["class"]]
+    if rec["class"] in res.get("rejected", {}):
+        print(f"the generator rejects this definition now: {res['rejected'][rec['class']]}")
+    if hits:
+        v = next((h for h in hits if h["signature"] == rec["signature"]), hits[0])
+        print(f"VIOLATION property=C16 replay={path}")
+        print(f"  signature={v['signature']}\n  expected: {v['expected'][:400]}\n  observed: {v['observed'][:400]}")
+        return 1
+    print(f"replay {path}: no violation on the current tree")
+    return 0
 
 
 # ---------------------------------------------------------------------------------------
